@@ -5,6 +5,7 @@ import Adc.Wick
 import Adc.Contraction
 import Adc.SpinSplit
 import Adc.Expand
+import Adc.Series
 /- Line-protocol driver: one JSON request per line on stdin, one JSON answer per line on stdout. -/
 open Lean Adc Adc.Wire
 
@@ -155,6 +156,18 @@ def handle (j : Json) : P Json := do
     let r := Slot.run (baseLetters sp) init ops
     pure (Json.mkObj [("out", Json.arr (r.2.map jNames).toArray), ("counter", r.1.counter),
                       ("generic", jNames r.1.generic), ("created", jNames r.1.created)])
+  | "orders" =>      -- perturbation-order bookkeeping: gen_term_orders
+    let r := genTermOrders (← (← fld j "order").getNat?) (← (← fld j "len").getNat?) (← (← fld j "min").getNat?)
+    pure (Json.mkObj [("r", Json.arr (r.map fun l => Json.arr (l.map fun (x : Nat) => (x : Json)).toArray).toArray)])
+  | "taylor" =>      -- expand_norm_factor ("inv") / expand_S_taylor ("invsqrt")
+    let f ← (← fld j "f").getStr?
+    let mn ← (← fld j "min").getNat?
+    if mn == 0 then throw "min_order 0 is refused" else
+    let a : Rat := if f == "inv" then -1 else if f == "invsqrt" then -1/2 else 0
+    if a == 0 then throw s!"unknown function {f}" else
+    let r := expandTaylor a (← (← fld j "order").getNat?) mn
+    pure (Json.mkObj [("r", Json.arr (r.map fun (c, ls) => Json.arr #[jRat c,
+      Json.arr (ls.map fun l => Json.arr (l.map fun (x : Nat) => (x : Json)).toArray).toArray]).toArray)])
   | _ => throw s!"unknown op {op}"
 
 partial def loop (h : IO.FS.Stream) (out : IO.FS.Stream) : IO Unit := do
